@@ -514,12 +514,19 @@ var cachePolicies = []struct{ id, name, rules string }{
 	{"aaaaaaaa-0000-0000-0000-000000000003", "p3", `service "web" { policy = "deny" } key_prefix "a" { policy = "deny" } node "n1" { policy = "deny" } service_prefix "" { policy = "deny" intentions = "deny" }`},
 }
 
-func mkPolicies(idx []int) structs.ACLPolicies {
+// mkPolicies builds the policy objects of one token. ver is a bit mask: policy i in its second version has the rules
+// of policy i+1 and a larger ModifyIndex - one that stays below the index of the next policy, so an updated policy
+// is not necessarily the most recently modified one of its set.
+func mkPolicies(idx []int, ver int) structs.ACLPolicies {
 	var out structs.ACLPolicies
 	for _, i := range idx {
 		p := cachePolicies[i]
 		pol := &structs.ACLPolicy{ID: p.id, Name: p.name, Rules: p.rules}
-		pol.ModifyIndex = uint64(10 + i)
+		pol.ModifyIndex = uint64(10 * (i + 1))
+		if ver&(1<<i) != 0 {
+			pol.Rules = cachePolicies[(i+1)%len(cachePolicies)].rules
+			pol.ModifyIndex += 5
+		}
 		pol.SetHash(true)
 		out = append(out, pol)
 	}
@@ -559,21 +566,47 @@ func newCaches() *structs.ACLCaches {
 	return cc
 }
 
+type polSet struct {
+	idx []int
+	ver int
+}
+
+func (p polSet) String() string { return fmt.Sprintf("%v/versions=%03b", p.idx, p.ver) }
+
 func cacheHistories(c *ev.Ctx, cnt *counter, quick bool) {
-	// alphabet: every non-empty ordered subset of {p1,p2,p3}
-	var alpha [][]int
-	for _, s := range [][]int{{0}, {1}, {2}, {0, 1}, {1, 0}, {0, 2}, {2, 0}, {1, 2}, {2, 1}, {0, 1, 2}, {2, 1, 0}, {1, 0, 2}} {
-		alpha = append(alpha, s)
+	// alphabet: every non-empty ordered subset of {p1,p2,p3}, each policy in its first or second version
+	var alpha []polSet
+	versions := func(s []int) []int {
+		out := []int{0}
+		for _, i := range s {
+			for _, v := range append([]int{}, out...) {
+				out = append(out, v|1<<i)
+			}
+		}
+		return out
 	}
-	subsets := [][]int{{0}, {1}, {2}, {0, 1}, {0, 2}, {1, 2}, {0, 1, 2}}
+	for _, s := range [][]int{{0}, {1}, {2}, {0, 1}, {1, 0}, {0, 2}, {2, 0}, {1, 2}, {2, 1}, {0, 1, 2}, {2, 1, 0}, {1, 0, 2}} {
+		for _, v := range versions(s) {
+			if len(s) == 3 && v != 0 && v != 1 && v != 2 && v != 7 {
+				continue
+			}
+			alpha = append(alpha, polSet{s, v})
+		}
+	}
+	var subsets []polSet
+	for _, s := range [][]int{{0}, {1}, {2}, {0, 1}, {0, 2}, {1, 2}, {0, 1, 2}} {
+		for _, v := range versions(s) {
+			subsets = append(subsets, polSet{s, v})
+		}
+	}
 	cold := map[string]string{}
 	for _, s := range subsets {
-		a, err := mkPolicies(s).Compile(newCaches(), nil)
+		a, err := mkPolicies(s.idx, s.ver).Compile(newCaches(), nil)
 		if err != nil {
 			c.HarnessError("cold compile failed: " + err.Error())
 			return
 		}
-		cold[fmt.Sprint(s)] = vector(a)
+		cold[s.String()] = vector(a)
 	}
 	depth := 2
 	if !quick {
@@ -599,19 +632,19 @@ func cacheHistories(c *ev.Ctx, cnt *counter, quick bool) {
 		caches := newCaches()
 		var names []string
 		for _, ai := range h {
-			mkPolicies(alpha[ai]).Compile(caches, nil)
-			names = append(names, fmt.Sprint(alpha[ai]))
+			mkPolicies(alpha[ai].idx, alpha[ai].ver).Compile(caches, nil)
+			names = append(names, alpha[ai].String())
 		}
 		for _, s := range subsets {
-			a, err := mkPolicies(s).Compile(caches, nil)
+			a, err := mkPolicies(s.idx, s.ver).Compile(caches, nil)
 			if err != nil {
 				continue
 			}
 			atomic.AddInt64(&n, 1)
-			if got := vector(a); got != cold[fmt.Sprint(s)] {
+			if got := vector(a); got != cold[s.String()] {
 				c.Violate("C08:decisions-depend-on-previously-resolved-tokens",
-					fmt.Sprintf("a token with policies %v decides %s after tokens with policy lists %v were resolved through the same caches; a cold resolver decides %s (A=allow D=deny, positions: service web/webx/db r,w,ixn-r,ixn-w; keys; nodes; aggregates)", s, got, names, cold[fmt.Sprint(s)]),
-					map[string]any{"resolved_before": names, "token_policies": s})
+					fmt.Sprintf("a token with policies %v decides %s after tokens with policy lists %v were resolved through the same caches; a cold resolver decides %s (A=allow D=deny, positions: service web/webx/db r,w,ixn-r,ixn-w; keys; nodes; aggregates)", s, got, names, cold[s.String()]),
+					map[string]any{"resolved_before": names, "token_policies": s.String()})
 			}
 		}
 	})
